@@ -5,6 +5,7 @@ pub mod hist;
 pub mod httpd;
 pub mod json;
 pub mod keys;
+pub mod memcheck;
 pub mod memtransport;
 pub mod props;
 pub mod rng;
